@@ -158,6 +158,61 @@ theorem cancel_window_state (b : VBody) (F : Futs) (k : K (Cont b.σ))
     have : (false || pre.contains Ev.cancel) = true := by simpa using hc
     rw [this]
 
+/-- **Leaving `eager_ctx()` / `cancelling()` never strands the started coroutine.**  The exit calls
+    `cancel()`; take the hardest instant — the loop has not run since `eager_ctx()` returned.  If the
+    body's reaction to CancelledError at its suspension point is to finish (its handlers and `finally`
+    blocks run and it returns or raises — whatever the futures look like), and it is not waiting on a
+    Task-like future that may refuse the request, then after two loop iterations its coroutine is
+    finished and the awaitable is done.  (Bodies that suppress and await again are covered by
+    `cancel_reaches_body` + `C01.eager_equiv_task`: they continue exactly as under a plain Task.) -/
+theorem ctx_exit_finishes (b : VBody) (co : Co b.σ) (s : b.σ) (hs : co.st = .susp s)
+    (held : Y) (F : Futs) (hok : HeldOk held F)
+    (hplain : ∀ f, held = .fut f → (F f).isTask = false)
+    (hfin : ∀ F' y, (b.resume s (.throw (.cancelled 0)) F').2 ≠ .yield y) :
+    let E2 := runK (contResume .repaired b) (eagerAt co held true F) [.run, .run]
+    E2.co.co.st = .done ∧ E2.task.outcome.isSome = true := by
+  intro E2
+  have hrelay : ∀ t F', (taskFinish t (contResume .repaired b (.relay co) (.throw .cancelled) F')).co.co.st = .done
+      ∧ (taskFinish t (contResume .repaired b (.relay co) (.throw .cancelled) F')).task.outcome.isSome = true := by
+    intro t F'
+    obtain ⟨h1, h2⟩ := Co.resume_susp_fin b co s hs (.throw (.cancelled 0)) F' (hfin F')
+    obtain ⟨h3, h4⟩ := taskFinish_done t (contResume .repaired b (.relay co) (.throw .cancelled) F') h2
+    exact ⟨by rw [h3]; exact h1, h4⟩
+  have hstop : ∀ E1 : K (Cont b.σ), E1.co.co.st = .done ∧ E1.task.outcome.isSome = true →
+      (kstep (contResume .repaired b) E1 .run).co.co.st = .done
+        ∧ (kstep (contResume .repaired b) E1 .run).task.outcome.isSome = true := by
+    intro E1 h; rw [kstep_run_done _ _ h.2]; exact h
+  have hdirect : kstep (contResume .repaired b) (eagerAt co held true F) .run
+        = taskFinish { ready := none } (contResume .repaired b (.relay co) (.throw .cancelled) F) →
+      E2.co.co.st = .done ∧ E2.task.outcome.isSome = true := by
+    intro h
+    simp only [E2, runK, List.foldl_cons, List.foldl_nil]
+    rw [h]; exact hstop _ (hrelay _ _)
+  cases held with
+  | bare => exact hdirect (by simp [kstep, eagerAt, taskStep, stepRes, stepExc, contResume, Fix.repaired])
+  | tok n => exact hdirect (by simp [kstep, eagerAt, taskStep, stepRes, stepExc, contResume, Fix.repaired])
+  | fut f =>
+    have ht := hplain f rfl
+    cases hst : (F f).st with
+    | pending =>
+      have hE1 : kstep (contResume .repaired b) (eagerAt co (.fut f) true F) .run
+          = ⟨.relay co, { ready := some (.wakeup f), futWaiter := some f },
+            setFlag (setFlag (F.set f { F f with st := .cancelled }) f true) f false⟩ := by
+        simp [kstep, eagerAt, taskStep, stepRes, stepExc, contResume, rearmHeld, taskFinish,
+          Fix.repaired, futCancel, hst, ht, Futs.set, setFlag, Fut.isDone]
+      simp only [E2, runK, List.foldl_cons, List.foldl_nil]
+      rw [hE1]
+      have : ((setFlag (setFlag (F.set f { F f with st := .cancelled }) f true) f false) f).st = .cancelled := by
+        simp [Futs.set]
+      simp only [kstep, taskWakeup, this, taskStep]
+      exact hrelay _ _
+    | result v =>
+      exact hdirect (by simp [kstep, eagerAt, taskStep, stepRes, stepExc, contResume, Fix.repaired, futCancel, hst])
+    | exc e =>
+      exact hdirect (by simp [kstep, eagerAt, taskStep, stepRes, stepExc, contResume, Fix.repaired, futCancel, hst])
+    | cancelled =>
+      exact hdirect (by simp [kstep, eagerAt, taskStep, stepRes, stepExc, contResume, Fix.repaired, futCancel, hst])
+
 /-! ### non-vacuity, and the witness of the unrepaired code -/
 
 /-- `try: await f0  except CancelledError: log; raise  finally: log` -/
